@@ -424,5 +424,5 @@ fn boundary_oracle(c: &BoundaryCase, rec: &Rec, _: &Ctx) -> Result<(), String> {
 }
 
 pub fn parts() -> Vec<PartDef> {
-    vec![part("deterministic", 60_000, 1_200_000, det_strat, det_oracle), part("frequencies", 240, 1_200, freq_strat, freq_oracle), part("boundary", 4_000, 80_000, boundary_strat, boundary_oracle), part("boundary-rare", 16, 320, rare_strat, boundary_oracle)]
+    vec![part("deterministic", 60_000, 1_200_000, det_strat, det_oracle), part("frequencies", 240, 1_200, freq_strat, freq_oracle), part("boundary", 4_000, 80_000, boundary_strat, boundary_oracle), crate::engine::part_opts("boundary-rare", 16, 320, rare_strat, boundary_oracle, |c: &BoundaryCase, _: &dyn Fn(&BoundaryCase) -> bool| c.clone(), crate::engine::PartOpts { max_shards: usize::MAX, max_shrink_iters: 6 })]
 }
